@@ -185,6 +185,31 @@ pub fn drive_case<'a>(case: &'a Case, ctx: &mut Ctx<'_>) {
             let mk = move |b: &'a [u8]| EndianSlice::new(b, endian);
             drive_family(&mk, case, ctx)
         }
+        2 => {
+            let mk = move |b: &'a [u8]| gimli::EndianRcSlice::new(std::rc::Rc::from(b), endian);
+            drive_family(&mk, case, ctx)
+        }
+        3 => {
+            let mk = move |b: &'a [u8]| gimli::EndianArcSlice::new(std::sync::Arc::from(b), endian);
+            drive_family(&mk, case, ctx)
+        }
+        4 => {
+            let mk = move |b: &'a [u8]| gimli::EndianReader::new(crate::readers::CountingBuf::new(b), endian);
+            drive_family(&mk, case, ctx)
+        }
+        5 => {
+            let mk = move |b: &'a [u8]| gimli::RelocateReader::new(EndianSlice::new(b, endian), crate::readers::Identity);
+            drive_family(&mk, case, ctx)
+        }
+        6 => {
+            // a relocation table that fails at call k (C01: failing Relocate callbacks)
+            let calls = std::rc::Rc::new(std::cell::Cell::new(0i64));
+            let fail_at = case.knob("reloc_fail_at", 0);
+            let mk = move |b: &'a [u8]| {
+                gimli::RelocateReader::new(EndianSlice::new(b, endian), crate::readers::FailingRelocate { fail_at, calls: calls.clone() })
+            };
+            drive_family(&mk, case, ctx)
+        }
         k => panic!("unknown reader kind {}", k),
     }
 }
